@@ -155,7 +155,9 @@ def problems(env, cfg, tier):
             "C05.illegal_reward_is_documented": ok | (ts.reward == INVALID_REWARD),
             "C06.legal_play_keeps_units_duplicate_free": ~ok | feasible(s2.board),
             "C06.legal_play_keeps_alphabet": ~ok | alphabet(s2.board),
-            "C06.full_board_after_legal_play_is_a_solution": ~(ok & full2) | (solved2 & last & (ts.reward == 1.0)),
+            # completion: a full board reached by a legal move is a solution (per unit: pigeonhole), is LAST and rewarded
+            "C06.full_board_after_legal_play_is_a_solution": jnp.stack([~(ok & full2) | unit_complete(u) for u in units(s2.board)]),
+            "C06.full_valid_board_is_last_and_rewarded": ~(full2 & solved2) | (last & (ts.reward == 1.0)),
             "C06.rewarded_end_is_a_full_valid_board": (ts.reward != 1.0) | (last & full2 & solved2 & feasible(s2.board).all()),
             # Inv' on MID steps = (MID => the action was legal) + the two legal_play clauses + the C04 mask clauses
             "C06.inv_mid_step_was_legal": last | ok,
@@ -196,7 +198,9 @@ def problems(env, cfg, tier):
         for p in REWARD_DEPENDENT:
             out[f"{p}.validate_row_implies_digits_only"] = ~VR(v) | ((v >= 0) & (v < N))
             out[f"{p}.validate_row_implies_every_digit_once"] = ~VR(v) | (count(v) == 1)
-            out[f"{p}.every_digit_once_implies_validate_row"] = ~unit_complete(v) | VR(v)
+            # (case split on the position of digit 0: one obligation takes 20-70 s, the nine cases 2-5 s each)
+            out[f"{p}.every_digit_once_implies_validate_row.case_digit0_at"] = jnp.stack([~(unit_complete(v) & (v[i] == 0)) | VR(v) for i in range(N)])
+            out[f"{p}.every_digit_once_implies_validate_row.cases_are_exhaustive"] = ~unit_complete(v) | jnp.any(v == 0)
         return out
 
     row = dict(title=f"Sudoku.is_puzzle_solved._validate_row@{cfg}", args=(state.board[0],), requires=lambda v: {}, ensures=row_ens,
@@ -204,7 +208,7 @@ def problems(env, cfg, tier):
 
     def comp_ens(board):
         conj = jnp.all(jnp.stack([VR(u) for u in units(board)]))
-        out = {"canary.no_board_is_solved": ~U.is_puzzle_solved(board)}
+        out = {"canary.every_full_board_is_solved": ~full(board) | U.is_puzzle_solved(board)}
         for p in REWARD_DEPENDENT:
             out[f"{p}.is_puzzle_solved_is_validate_row_on_the_27_units"] = U.is_puzzle_solved(board) == conj
         return out
